@@ -259,11 +259,17 @@ def rand_tx(rng, net, coinbase=False):
 
 
 def rand_block_parts(rng, coin, n):
-    """(header fields without root, [tx bytes]) of a block with n random transactions built through the public API"""
+    """(header fields without root, [tx bytes], [txids]) of a block with n random transactions built through the
+    public API (constructors, as_bin, hash; nothing is parsed here)"""
     net = NETS[coin]
     txs = [rand_tx(rng, net, coinbase=(i == 0)) for i in range(n)]
     hdr = (rng.choice([1, 2, 0x20000000]), rng.randbytes(32), rng.getrandbits(32), rng.getrandbits(32), rng.getrandbits(32))
-    return hdr, [tx.as_bin() for tx in txs]
+    return hdr, [tx.as_bin() for tx in txs], [tx.hash() for tx in txs]
+
+
+def block_wire(hdr, txbins, txids):
+    """the Bitcoin serialisation written by hand (reference, not pycoin)"""
+    return hdr80(hdr[0], hdr[1], ref_root(txids), hdr[2], hdr[3], hdr[4]) + varint(len(txbins)) + b"".join(txbins)
 
 
 def make_block(coin, hdr, txbins, root=None):
@@ -281,8 +287,8 @@ def gen_block_streams(rng, tier):
     sizes = list(range(1, 13)) + [16, 17, 20] if tier == "quick" else list(range(1, 71))
     for n in sizes:
         coin = "ltc" if n % 5 == 0 else "btc"
-        hdr, txbins = rand_block_parts(rng, coin, n)
-        data = make_block(coin, hdr, txbins).as_bin()
+        hdr, txbins, txids = rand_block_parts(rng, coin, n)
+        data = block_wire(hdr, txbins, txids)
         yield (coin, True, True, data)
         yield (coin, True, True, data + rng.randbytes(rng.randint(1, 9)))        # trailing bytes stay unread
         if n <= 8 or n % 7 == 0:
@@ -415,7 +421,13 @@ def model_cases(rng, tier):
         n2 = rng.choice([0, 1, 0xffffffff, 0x100000000, rng.getrandbits(32)])
         yield Case("set_nonce_hash %s %s" % (a, arg(n2)), (lambda f=f, n2=n2: call(impl_set_nonce_hash, f, n2)))
     # --- blocks (transactions through the oracle)
-    for coin, inc, chk, data in gen_block_streams(rng, tier):
+    try:
+        block_streams = list(gen_block_streams(rng, tier))
+    except Exception as e:      # building transactions through the API failed: surface as a disagreement
+        block_streams = []
+        msg = "!HARNESS:block generator raised %s: %s" % (type(e).__name__, str(e)[:80])
+        yield Case("generator_failure", (lambda msg=msg: msg))
+    for coin, inc, chk, data in block_streams:
         yield Case("block_parse s%s %s %s %s" % (coin, arg(inc), arg(chk), arg(data)),
                    (lambda coin=coin, inc=inc, chk=chk, data=data: impl_block_parse(coin, inc, chk, data)))
     # --- merkleblock: honest proofs, every single-position corruption, wire format, malformed wire
@@ -561,12 +573,14 @@ def chk_header_bytes(hx):
     return None
 
 
-def chk_block(coin, hdr, txhex):
+def chk_block(coin, hdr, txhex, txidhex=None):
     net = NETS[coin]
     hdr = (hdr[0], bytes.fromhex(hdr[1]), hdr[2], hdr[3], hdr[4])
     txbins = [bytes.fromhex(t) for t in txhex]
     b = make_block(coin, hdr, txbins)
     txids = [tx.hash() for tx in b.txs]
+    if txidhex is not None and [t.hex() for t in txids] != txidhex:
+        return {"kind": "txid-changes-through-serialisation", "n": len(txids)}
     if b.merkle_root != ref_root(txids):
         return {"kind": "merkle-root-differs-from-definition", "n": len(txids)}
     try:
@@ -711,8 +725,21 @@ def chk_dup_attack(inp):
 
 
 def _block_inp(rng, coin, n):
-    hdr, txbins = rand_block_parts(rng, coin, n)
-    return {"coin": coin, "hdr": [hdr[0], hdr[1].hex(), hdr[2], hdr[3], hdr[4]], "txs": [t.hex() for t in txbins]}
+    try:
+        hdr, txbins, txids = rand_block_parts(rng, coin, n)
+    except Exception as e:
+        return {"coin": coin, "n": n, "generator_error": "%s: %s" % (type(e).__name__, e)}
+    return {"coin": coin, "hdr": [hdr[0], hdr[1].hex(), hdr[2], hdr[3], hdr[4]], "txs": [t.hex() for t in txbins],
+            "txids": [t.hex() for t in txids]}
+
+
+def chk_block_inp(inp):
+    if "generator_error" in inp:
+        return {"kind": "tx-api-raises", "detail": inp["generator_error"]}
+    try:
+        return chk_block(inp["coin"], inp["hdr"], inp["txs"], inp.get("txids"))
+    except Exception as e:
+        return {"kind": "block-api-raises", "detail": "%s: %s" % (type(e).__name__, e), "n": len(inp["txs"])}
 
 
 def prop_cases(rng, tier):
@@ -734,11 +761,11 @@ def prop_cases(rng, tier):
     for n in range(1, 71):
         for coin in (["btc", "ltc"] if (n <= 8 or n % 8 == 0 or tier == "thorough") else ["btc"]):
             inp = _block_inp(rng, coin, n)
-            yield PropCase("block", inp, (lambda inp=inp: chk_block(inp["coin"], inp["hdr"], inp["txs"])))
+            yield PropCase("block", inp, (lambda inp=inp: chk_block_inp(inp)))
     if tier == "thorough":
         for n in (127, 128, 129, 255, 256, 257):
             inp = _block_inp(rng, "btc", n)
-            yield PropCase("block", inp, (lambda inp=inp: chk_block(inp["coin"], inp["hdr"], inp["txs"])))
+            yield PropCase("block", inp, (lambda inp=inp: chk_block_inp(inp)))
     for n in range(2, 71):
         txids = rand_hashes(rng, n)
         if dup_attack_lists(txids):
@@ -764,7 +791,7 @@ def replay_input(check, inp):
     if check == "header_bytes":
         return chk_header_bytes(inp["data"])
     if check == "block":
-        return chk_block(inp["coin"], inp["hdr"], inp["txs"])
+        return chk_block_inp(inp)
     if check == "proof":
         return chk_proof(inp)
     if check == "corrupt":
@@ -813,7 +840,7 @@ def search(rng, tier, disagreements, known_ids):
                 coin = toks[1][1:]
                 for n in (1, 2, 3, 5, 8):
                     inp = _block_inp(rng, coin, n)
-                    cands.append(PropCase("block", inp, (lambda inp=inp: chk_block(inp["coin"], inp["hdr"], inp["txs"]))))
+                    cands.append(PropCase("block", inp, (lambda inp=inp: chk_block_inp(inp))))
             elif fn in ("post_unpack", "parse_merkleblock", "level_widths", "build", "matched"):
                 for n in (1, 2, 3, 4, 5, 6, 7):
                     txids = rand_hashes(rng, n)
